@@ -30,7 +30,7 @@ fn run(name: &str, f: fn(&Case) -> R) -> Option<(Case, &'static str, u64)> {
             for far in [None, Some(0), Some(input.len()), Some(start)] {
                 if !uses(name, "input") && far.is_some() { continue; }
                 for (ci, c) in CHARS.iter().enumerate() {
-                    for c2 in [CHARS[(ci + 3) % CHARS.len()], *c, 'z', '\u{10ffff}'] {
+                    for c2 in [CHARS[(ci + 3) % CHARS.len()], *c, 'z', '\u{10ffff}', '\u{e9}', '\u{ff}', '\u{80}', '\u{7f}'] {
                         for lit in LITS {
                             let mut l = [0u8; 3];
                             if lit.len() > 3 { continue; }
